@@ -5,7 +5,9 @@
 
 mod c07;
 mod c08;
+mod c02;
 mod c11;
+mod c12;
 mod codec;
 mod mutate;
 mod vtree;
@@ -150,6 +152,8 @@ fn dispatch(p: &Params) -> Outcome {
         "C07" => c07::run(p),
         "C08" => c08::run(p),
         "C11" => c11::run(p),
+        "C02" => c02::run(p),
+        "C12" => c12::run(p),
         "C01" => codec::run(p, codec::Which::C01),
         "C09" => codec::run(p, codec::Which::C09),
         _ => {
@@ -165,6 +169,8 @@ fn dispatch_replay(p: &Params, v: &Value) -> Outcome {
         "C07" => c07::replay(p, v),
         "C08" => c08::replay(p, v),
         "C11" => c11::replay(p, v),
+        "C02" => c02::replay(p, v),
+        "C12" => c12::replay(p, v),
         "C01" => codec::replay(p, v, codec::Which::C01),
         "C09" => codec::replay(p, v, codec::Which::C09),
         _ => {
